@@ -7,6 +7,7 @@ import (
 	"os"
 	"sort"
 	"strings"
+	"sync"
 
 	"golang.org/x/tools/go/packages"
 	"golang.org/x/tools/go/ssa"
@@ -151,4 +152,22 @@ func posOf(P *Program, p token.Pos) string {
 	}
 	pos := P.Fset.Position(p)
 	return fmt.Sprintf("%s:%d", strings.TrimPrefix(pos.Filename, P.Root+"/"), pos.Line)
+}
+
+var funcIndexCache = map[*Program]map[string]*ssa.Function{}
+var funcIndexMu sync.Mutex
+
+// ssaFuncIndex indexes all functions of the program (incl. dependencies) by canonical name.
+func ssaFuncIndex(P *Program) map[string]*ssa.Function {
+	funcIndexMu.Lock()
+	defer funcIndexMu.Unlock()
+	if m, ok := funcIndexCache[P]; ok {
+		return m
+	}
+	m := map[string]*ssa.Function{}
+	for fn := range ssautil.AllFunctions(P.Prog) {
+		m[canonNameAny(fn)] = fn
+	}
+	funcIndexCache[P] = m
+	return m
 }
